@@ -249,6 +249,14 @@ def run(tier, seed, rng_py):
         cfg['inv_update_steps'] = 1; cfg['factor_update_steps'] = 1   # second-order data always from the current factors (staleness: C05)
         cfg['damping'] = prng.choice([1.0, 0.25])
         hist = [['train', cfg['accumulation_steps']] for _ in range(prng.randint(1, 3))]
+        if k % 4 == 0:
+            # stratum: plain eigen (eigenvalues used at every step), second-order data broadcast to several gradient workers,
+            # three refreshes with changing factors: stale or mis-communicated eigen data on a non-inverse-worker rank shows
+            cfg.update(compute_method='eigen', compute_eigenvalue_outer_product=False, W=4 if k % 8 == 0 else 2)
+            cfg['k'] = cfg['W']; cfg['grad_worker_fraction'] = 1.0
+            cfg['symmetry_aware'] = bool(k % 8 == 0)
+            cfg['factor_decay'] = 0.5
+            hist = [['train', cfg['accumulation_steps']] for _ in range(3)]
         mods_of = lambda model: [m for m in model if isinstance(m, (torch.nn.Linear, torch.nn.Conv2d))]
         pre = lambda r, ev, model, p: ([combined_grad(m) for m in mods_of(model)], p.damping)
         def obs(r, ev, e, model, p):
